@@ -127,7 +127,8 @@ fn make(layout: usize, lv: &[u64]) -> SkinFile {
         }
         Some(v) => {
             let mut h = SkinHeader::new(v);
-            h.vertex_count = 6;
+            // non-zero, non-default, different from every index count of the alphabet
+            h.vertex_count = 9;
             if let Some(c) = h.center_position.as_mut() {
                 *c = [1.0, -2.0, 0.5];
             }
@@ -227,6 +228,34 @@ fn walk_skin(r: &mut CaseResult, what: &str, b: &[u8], s: &SkinFile) {
         if w[1].0 < w[0].1 {
             r.viol(format!("{what}: record arrays overlap, sections {} and {}", w[0].2, w[1].2), format!("{:?} {:?}", w[0], w[1]));
         }
+    }
+}
+
+/// Scalar header fields that both the source and the converted skin can store must survive a
+/// conversion: new layout -> new layout keeps vertex_count (and the centre position / bounds when
+/// both versions carry them), old layout -> old layout keeps bone_count_max. Across the layouts
+/// nothing is demanded: the old layout has no vertex count and the new one no bone_count_max.
+fn header_survives(r: &mut CaseResult, what: &str, s: &SkinFile, c: &SkinFile) {
+    match (s, c) {
+        (SkinFile::New(a), SkinFile::New(b)) => {
+            if a.header.vertex_count != b.header.vertex_count {
+                r.viol(format!("{what} loses header field vertex_count (new layout to new layout)"), format!("source {} converted {}", a.header.vertex_count, b.header.vertex_count));
+            }
+            if a.header.name.count != b.header.name.count {
+                r.viol(format!("{what} loses header field name (new layout to new layout)"), format!("source count {} converted {}", a.header.name.count, b.header.name.count));
+            }
+            if let (Some(x), Some(y)) = (a.header.center_position, b.header.center_position) {
+                if x.map(f32::to_bits) != y.map(f32::to_bits) || a.header.center_bounds.map(f32::to_bits) != b.header.center_bounds.map(f32::to_bits) {
+                    r.viol(format!("{what} loses header fields centre position / bounds (both versions carry them)"), format!("source {:?} {:?} converted {:?} {:?}", x, a.header.center_bounds, y, b.header.center_bounds));
+                }
+            }
+        }
+        (SkinFile::Old(a), SkinFile::Old(b)) => {
+            if a.header.bone_count_max != b.header.bone_count_max {
+                r.viol(format!("{what} loses header field bone_count_max (old layout to old layout)"), format!("source {} converted {}", a.header.bone_count_max, b.header.bone_count_max));
+            }
+        }
+        _ => {}
     }
 }
 
@@ -365,6 +394,7 @@ impl Space for SkinSpace {
                     // the five data vectors are representable in every layout
                     let n0 = t.viols.len();
                     diff(t, "skin conversion loses content", &content(&s), &content(&c), true);
+                    header_survives(t, "skin conversion", &s, &c);
                     if t.viols.len() != n0 {
                         return;
                     }
@@ -390,6 +420,10 @@ impl Space for SkinSpace {
                                 return;
                             }
                             diff(t, "chained skin conversion loses content", &content(&s), &content(&c2), true);
+                            if c1.is_new_format() == s.is_new_format() {
+                                // (a detour through the other layout legitimately recomputes these fields)
+                                header_survives(t, "chained skin conversion", &s, &c2);
+                            }
                             let back_home = match (&s, LAYOUTS[d[5] as usize].1) {
                                 (SkinFile::Old(_), _) => !t2.uses_new_skin_format() && !t1.uses_new_skin_format(),
                                 (SkinFile::New(_), Some(v)) => v == t2 && v == t1,
